@@ -12,7 +12,8 @@ from harness.gen import c02 as G
 from harness.impl import c02_real as R
 from harness.impl import pyast
 
-MODULE = "CddVerif.Properties.C02"
+MODULE = "CddVerif.Properties.C02Rest"  # imports Properties.C02 (through C08Iface / C03Iface); C02 with the docstring layer instantiated by the C01 ReST model
+REST_THEOREMS = ["C02Rest." + t for t in "restEnv_envOK docHyp_of_InRest C02Rest_class C02Rest_pydantic C02Rest_function C02Rest_argparse parseRest_abstains_on_class_docstring parseRest_abstains_on_indented_docstring class_purpose_differs function_edd_description_drift empty_header_blank_line restEnv_not_viewOnly".split()]
 
 CFGS = {
     "class": [{"style": s, "edd": e} for s in R.STYLES for e in (False, True)],
@@ -770,7 +771,12 @@ THEOREMS = ["C02.C02_class", "C02.C02_pydantic", "C02.C02_function", "C02.C02_ar
 def run(chk: core.Check) -> int:
     import collections
 
-    chk.lean(MODULE, THEOREMS)
+    chk.lean(MODULE, THEOREMS + REST_THEOREMS)
+    chk.trusted_base.append("Properties/C02Rest.lean: the abstract docstring layer `env` of the C02 theorems instantiated by the character-level ReST model of C01 (Model/IfaceRestEnv.lean: restEnv, with ports of the "
+                            "purpose=class emitter and the indent stage of docstring()); on the decidable region InRest (ReST, emit_default_doc=False, one-line header, C01Whole.InDomain of the converted interface, "
+                            "no prose type triggers; class/pydantic without return entry; argparse without return default) the four round-trip theorems hold with NO hypothesis about the docstring layer "
+                            "(C02Rest_class/_pydantic/_function/_argparse); CPython's expression parser stays the parameter pyExpr; outside InRest (Google/NumPy styles, emit_default_doc=True, multi-line headers) "
+                            "the layer remains a parameter whose answers the harness evaluates per case; the composed model was compared with the real emitter/readers by hand only (0 differences inside InRest)")
     chk.trusted_base += [
         "model lean/CddVerif/Model/Iface{IR,Emit,Parse,Domain}.lean: the four emitters, the render/re-read step (negative numbers become UnaryOp) and the three parsers, ported decision by decision; tied to /repo by comparing, per case, the emitted AST (shared flat AST with ast.unparse texts and a structured form), the re-parsed AST and the parsed IR",
         "the docstring layer (cdd.docstring.emit/parse, extract_default, parse_adhoc_doc_for_typ — property C01) and CPython's expression parser are PARAMETERS of the model (Iface.Env); the theorems assume the stated decidable hypotheses about their answers (Iface.docHyp); the driver evaluates those hypotheses on the real layer's answers for every case and the evidence counts how often they hold",
